@@ -9,7 +9,7 @@ from vmm.ref import searchlib as L
 ID = 'C15'
 RULE = ('Hypothesis long frames (<=7 geos x <=14 dates, missing cells up to ~20% (absent rows, or rows present with a NaN value), optionally a geo with no rows, int/str IDs, '
         'shuffled rows, response column name, extra column) x eligibility in {none, = data, subset of data, superset with '
-        'excludable extras, superset with a non-excludable extra} x a drawn ordered sub-list of the assignable geos as '
+        'excludable extras, superset with a non-excludable extra, disjoint from the data (all excludable)} x a drawn ordered sub-list of the assignable geos as '
         'geo_index (optionally with a non-assignable geo; in half of the cases after the index had been set to another list and used) x drawn index sets. Oracle: independent pivot, means, shares, '
         'eligibility classes and aggregates. Non-trivial = >=2 geos and (missing cells or eligibility != data or index order != '
         'row order); distinct by spec hash.')
@@ -36,6 +36,10 @@ def _spec(draw):
   panel['missing'] = miss
   panel['missing_as_nan'] = draw(st.booleans())
   elig = draw(G.eligibility_spec(panel['ids']))
+  if draw(st.integers(0, 11)) == 0:
+    # a table keyed differently from the data ('01' vs 1): no geo in common, every row excludable
+    elig = {'rows': [['x' + g] + list(draw(st.sampled_from([(1, 1, 1), (1, 0, 1), (0, 1, 1), (0, 0, 1)]))) for g in panel['ids']],
+            'as_index': draw(st.booleans()), 'style': 'disjoint', 'col_order': None, 'row_labels': None}
   return {'panel': panel, 'elig': elig, 'params': {'iroas': 1.0, 'n_designs': 1},
           'index': {'order_seed': draw(st.integers(0, 10 ** 6)), 'k': draw(st.integers(1, 7)), 'bad': draw(st.integers(0, 5)) == 0, 'twice': draw(st.booleans()),
                     'shared_elig': draw(st.integers(0, 2)) == 0},
